@@ -100,3 +100,15 @@ Definition api_c18_multimerge (on_index : bool) (sufs : list (list N)) (outer : 
   | Raise IndexError => (3, [], [])
   | Raise KeyError => (4, [], [])
   end.
+
+(* the many-to-many model (keys may repeat inside a table); rows come key group by key group, the harness compares
+   them as a multiset.  On unique keys it equals api_c18_multimerge (C18_merge_m_unique). *)
+Definition api_c18_multimerge_m (on_index : bool) (sufs : list (list N)) (outer : bool)
+    (ts : list (list (list N) * list (list N * list (option (list N)))))
+    : (nat * list (list N) * list (list N * list (option (list N)))) :=
+  match multimerge_m gen_c18_facts on_index sufs outer ts with
+  | Ok r => (0, kcols r, krows r)
+  | Raise TypeError => (2, [], [])
+  | Raise IndexError => (3, [], [])
+  | Raise KeyError => (4, [], [])
+  end.
